@@ -3,6 +3,7 @@ package eng
 import (
 	"bytes"
 	"fmt"
+	"os"
 	"runtime/debug"
 	"sort"
 	"strings"
@@ -20,6 +21,9 @@ func Safe(fn func() error) (err error) {
 	defer func() {
 		if r := recover(); r != nil {
 			err = fmt.Errorf("PANIC/FAULT: %v", r)
+			if os.Getenv("VERIF_PANIC_STACK") != "" { // developer aid
+				fmt.Fprintf(os.Stderr, "PANIC/FAULT: %v\n%s\n", r, debug.Stack())
+			}
 		}
 	}()
 	return fn()
